@@ -14,7 +14,55 @@ CLAIMS = {
          "Theorems for all u64 tick counts, all (sign, secs, nanos) system times, all 128-bit CLSIDs and all valid directory entries and headers: conversion to FILETIME floors to 100 ns toward the Unix epoch, saturates at 1601 and at u64::MAX ticks, every stored value is reported as a SystemTime that converts back to it, and decode(encode e) = e in both validation modes. That setters store these values, that streams stay nil/zero and that reopening returns them is checked by lockstep histories (profile meta: extreme values, every object kind, reopen in both modes) against the abstract tree.",
          "Trusted: Coq kernel; 64-bit SystemTime (checked_add never fails for u64 ticks) is an assumption of the model; setter plumbing rests on differential testing."),
 }
-PENDING = ["C01","C02","C03","C04","C05","C06","C07","C08","C10","C11","C12","C13","C15","C16","C18"]
+
+CLAIMS.update({
+ "C01": ("DESIGN.md 6/C01", "Coq proofs of the directory layer as a search tree + abstract-tree specification run on the implementation's results after every call (translation validation of the refinement step)",
+  "Partial proof. Theorems: table lookup / insertion / removal / listing refine a search tree over the CFB order for any tree shape; the abstract specification keeps children sorted and unique up to case, refusals change nothing, any sibling set coexists. The full refinement abs(step s op) = spec_step(abs s) op is checked per instance: every generated history (both versions, all operation kinds, colliding names, sizes around 64/4096/sector, reopen at random points) is run on the real crate; after every call the extracted specification must return the implementation's result and the abstraction of the lockstep model state must equal the specification tree.",
+  "Trusted: Coq kernel, extraction, harness. The composition of the layer theorems into step_refines_spec is not proved; stream bytes through chains are tied by lockstep."),
+ "C02": ("DESIGN.md 6/C02", "Coq proofs of FAT write-through and codec round trips + byte-exact lockstep of the image after every call + reopen of the unflushed bytes at every boundary",
+  "Partial proof. Theorems: every FAT cell update is on disk when the call returns (reuse and growth paths), the on-disk FAT read back as open does has the cache as prefix, entry and header codecs round-trip in both modes, strict and permissive open build the identical state. The write-through claim about the code is the lockstep obligation: after every call the crate's backing bytes (snapshot, no flush) equal the model's image byte for byte; histories reopen those bytes in both modes at random boundaries and continue on the reopened object.",
+  "The composition persist (open(image s) = s) is not proved; MiniFAT and directory write-through are tied by lockstep only."),
+ "C03": ("DESIGN.md 6/C03", "independent Coq-extracted MS-CFB checker run on the implementation's bytes after every call + Coq proofs of parts of the well-formedness invariant",
+  "Partial proof. wf_check (spec/WfImage.v) is written from MS-CFB and the property text and shares no mechanics with the model or the library; it is run on the crate's bytes after every operation of generated histories (including many-entry histories with several directory sectors). Theorems: created images of both versions are accepted, evaluated histories through every allocator path are accepted, the checker rejects broken images, FAT cache = disk with markers and header counts maintained through growth and reuse, free list names only FREE cells, removal blanks exactly one slot and keeps a red-red-free search tree.",
+  "The preservation theorem W is not proved. The DIFAT-sector regime (> 109 FAT sectors) is covered by theorems (allocate_grow_coherent) but not exercised by the quick histories."),
+ "C04": ("DESIGN.md 6/C04", "Coq proofs of layout independence of chain reading, tree lookup, listing and name order",
+  "Partial proof. Theorems: a chain is read as the concatenation of its sectors in chain order whatever the sector numbers; lookup finds exactly the keys of any search tree over the CFB order (any balance, colours, slots); listing is the in-order sequence; the order is shortlex on upper-cased UTF-16 units (the code-point ordering defect was repaired). The corpus probe checks a tree ordered by code units as another writer would produce it.",
+  "The composition open_any_layout is not proved and the independent layout synthesiser of DESIGN.md is not built yet: foreign layouts are exercised only through deviant/mutated images (C05/C11/C16 checks)."),
+ "C05": ("DESIGN.md 6/C05", "Coq proof that open never panics or runs out of fuel on ANY byte string, with linear size bound + mutation enumeration replayed on the model",
+  "Proof. open_total: for every byte string and both modes the model of open returns Ok or an error (every Rust panic site is a Panic result, every loop runs on fuel). open_size_bound: every table is no longer than the input. chain_ids_total: on accepted tables every chain walk from any start terminates (why the cheap first-sector loop check suffices). Read-only queries can only refuse. Tie: the repository's fuzz inputs and thousands of field-level corruptions, truncations and extensions are opened by the real crate in a watched worker and given a read-only workload; the model must agree on accept/reject, error kind and every result and must never answer Panic/OutOfFuel.",
+  "Peak heap is not measured (size bound on model tables instead). Stream reads on accepted files are covered by lockstep agreement, not by a separate totality theorem."),
+ "C06": ("DESIGN.md 6/C06", "Coq proof that the buffered handle refines the Read/Write/BufRead/Seek contract over a byte vector for every buffer size and every operation sequence",
+  "Proof at handle level over an abstract store satisfying store_contract (discharged for a vector store and a faulty store): every history of read / fill_buf / consume / write / seek / set_len / flush / len / position refines the contract, never panics, out-of-range seeks of any magnitude are InvalidInput with no effect, looping forms are independent of the buffer size. Tie: handle histories on the real crate for max_buffer_size in {1, 1024, 1500, 4096, 1 MiB} x V3/V4 are checked against a byte vector (contract oracle) and replayed on the model in lockstep.",
+  "That Store.v satisfies store_contract is proved only for large streams in part (StoreProofs, in progress); otherwise tied by lockstep."),
+ "C07": ("DESIGN.md 6/C07", "Coq proof that removal by relinking keeps every surviving entry's id and payload + multi-handle lockstep histories",
+  "Proof for the directory layer: for every table, remove_dir_entry frees exactly the removed slot and every other slot keeps name, type, start, length and metadata; on well-formed sibling trees the result is search-tree removal, other lookups unchanged; insertion (slot reuse) only adds the new id; a chain write leaves disjoint chains unchanged. Tie: histories with up to 4 open handles interleaved with creations, removals (two-children nodes) and overwrites of other entries, replayed on the model in lockstep with full dumps.",
+  "Handle operations changing only their own stream is proved at chain level (disjoint chains) and tied above that by lockstep."),
+ "C08": ("DESIGN.md 6/C08", "Coq proof of zero padding at handle and chain level + vector-contract oracle on the real crate with shrink/grow/reuse histories",
+  "Partial proof. Theorems: set_len refines truncate-or-pad-with-zeros given the store contract; a chain write of zeros overwrites exactly the range whatever the sectors held; disjoint chains untouched. Tie: the vector-contract oracle (set_len must read back as zeros, also through a fresh handle) over histories with shrinks, grows and removals for all buffer sizes and both versions, plus lockstep with the model, whose sectors keep stale bytes.",
+  "That Store.resize meets the contract in all migration cases is not yet a theorem."),
+ "C10": ("DESIGN.md 6/C10", "Coq proof that every precondition refusal leaves the whole state unchanged + byte comparison around every refused call",
+  "Proof: precheck computes the refusal of each operation from the path, directory table and handle alone; precheck_sound shows step returns the unchanged state (hence unchanged bytes, unchanged handle table, same future) for every operation including create_storage_all, remove_storage_all and seek. Tie: histories with about 45% refusals of every kind; the driver checks that the implementation's bytes are identical before and after every call that returned NotFound / AlreadyExists / InvalidInput, and lockstep continues afterwards.",
+  "The converse (every error of these kinds is a precheck refusal) is proved for queries only; for mutations it holds on well-formed states and is observed on every explored history."),
+ "C11": ("DESIGN.md 6/C11", "Coq proof of the mutation-safety invariant (walks terminate + sane free list) established by open and preserved by every allocator and chain operation in every outcome + mutation enumeration replayed on the model",
+  "Partial proof. Safe (no edge enters a cycle from outside; free list duplicate-free and naming only FREE cells) holds after open of any accepted byte string, is preserved by allocate / extend / free / chain and mini-chain resize and write in Ok and error outcomes, and implies termination of every checked walk; free_chain and the repaired extend_chain walk terminate for any table. Tie: corruptions concentrated on fields open never follows (start sectors, sizes, links) are opened permissively and mutated (write, set_len across the cutoff, remove, overwrite, create) in a watched worker; the model replays every case byte-exactly and must never answer Panic/OutOfFuel.",
+  "Directory- and API-level layers above the chains are covered by the enumeration, not by theorems. Known exclusion: use of a handle after its stream was removed (outside C07's precondition) is not generated."),
+ "C12": ("DESIGN.md 6/C12", "Coq proof at handle level that a failed read changes nothing observable + exhaustive single-fault enumeration on the real crate",
+  "Proof: over a store whose reads may fail arbitrarily, every handle operation returns Err or exactly the fault-free result; after Err the abstract content and cursor are unchanged and the invariant holds, so later reads return true content; never Panic. Tie: every raw read/seek call of a workload (open, walk, list, buffered reads with retry, seeks; both versions, two buffer sizes) is failed in turn, plus random pairs; every returned byte is compared with the true content.",
+  "Error propagation below the store interface is covered by the enumeration only."),
+ "C13": ("DESIGN.md 6/C13", "Coq proof that Ok flush implies durability across failed attempts + exhaustive single-fault enumeration of a mutating workload",
+  "Proof: over a store whose write-backs may fail torn and whose resize fails atomically, flush Ok implies the store holds every accepted byte, failures are reported and leave the data pending; set_len failure leaves content and cursor unchanged. Tie: every raw write/seek/flush call of a mutating workload is failed in turn (about 59 000 runs) with retry; no panic, no hang, and after every Ok flush a fresh handle must read back all accepted bytes.",
+  "Atomicity of resize on failure is an assumption checked by the enumeration. No panic below the handle after a fault is enumeration only."),
+ "C15": ("DESIGN.md 6/C15", "Coq proofs of reuse-before-growth at allocator level + cycle enumeration on the real crate",
+  "Partial proof. Theorems: allocation takes a free sector when one exists and the file does not grow; growth happens only with an empty free list; a freed chain is reused exactly; free mini sectors and retained MiniFAT / mini-stream capacity are reused without allocating. Tie: prefix + net-zero cycle histories (streams below and above the cutoff, storages, overwrite/truncate) repeated 5 times on the real crate: length after repetition k equals length after repetition 2 for all k >= 2.",
+  "The history-level theorem netzero_stable is not proved."),
+ "C16": ("DESIGN.md 6/C16", "Coq proof for every byte string that strict acceptance implies permissive acceptance with the identical state, and of the tolerated deviations at decoder level",
+  "Proof: strict_implies_permissive for all byte strings (identical state, hence identical tree, metadata and contents); seven documented deviations are proved tolerated by permissive decode with the same entry/header and rejected by strict decode.",
+  "Table-level deviations (zero-padded FAT/DIFAT, unmarked FAT sectors, over-long MiniFAT, counts) are covered by the model's branches agreeing with the crate on mutated images (C05/C11 enumerations), not by separate tolerated_d theorems; the deviation-injection harness of DESIGN.md is not built yet."),
+ "C18": ("DESIGN.md 6/C18", "Coq proof that read_exact / write_all / copy and the sector-hopping loops are independent of short counts, Interrupted and the backend position + deterministic lockstep",
+  "Partial proof. Theorems over any chunking oracle: the looping transfers move exactly the same bytes to the same offsets as the one-shot backend; every access seeks first. Determinism: the model is a function, and byte-exact lockstep shows the crate's image is that function of the history (timestamps pinned). Buffer-size and version independence of logical results come from C06 and C01.",
+  "std loops are modelled from documentation; File backend and chunking backends are not yet exercised by a dedicated run."),
+})
+PENDING = []
 def main():
     checks = []
     for pid in sorted(CLAIMS):
@@ -43,7 +91,7 @@ def main():
         "engines": [{"name": "coq+lockstep", "path": "check", "serves_properties": sorted(CLAIMS),
                      "kind_free_text": "Coq 8.16.1 development (coq/), extracted OCaml model + replay driver (ocaml/), Rust harness driving the real crate (harness/)"}],
         "checks": checks,
-        "notes": "See DESIGN.md. Properties not yet listed under checks are under construction in this session and are listed under not_applicable only until their check lands.",
+        "notes": "See DESIGN.md. Every property is decided by Coq theorems about a model of the code plus a correspondence check against /repo; where the theorems cover only part of the quantifier the claim text says partial and names what rests on enumeration. Twelve defects found on the pinned tree were repaired by fix: commits (KNOWN_FINDINGS.txt).",
         "not_applicable": [{"property_id": p, "reason": "check under construction in this session (not a claim that the technique cannot apply)"} for p in PENDING if p not in CLAIMS],
     }
     json.dump(m, open(os.path.join(ROOT, "MANIFEST.json"), "w"), indent=1)
